@@ -75,6 +75,40 @@ D = {
  ('bucket.UnmarshalBinary','conv:(*hash.SHA256Hash)(d[12:])'):T('d[12:] has the 32 elements of the target array'),
  ('bucket.UnmarshalBinary','deref:*keySum'):T('result of the conversion above, never nil'),
  ('withCallbackURI','assert:err.(oauth.OAuth2Error)'):S('withCallbackURI:err.(oauth.OAuth2Error)'),
+ ('Parse','lencheck:len(message.Signatures()) != 1'):T('guard of Signatures()[0] (model: nSigs != 1)'),
+ ('Parse','lencheck:len(token.JwtID()) > maxJtiLength'):T('jti length limit (model: jtiLen > maxJtiLength)'),
+ ('bitstring.bit','lencheck:q >= len(*bs)'):T('guard of (*bs)[q]'),
+ ('bitstring.setBit','lencheck:q >= len(*bs)'):T('guard of (*bs)[q]'),
+ ('Iblt.UnmarshalBinary','lencheck:len(data) != numBuckets * bucketBytes'):T('the only error of UnmarshalBinary; precedes every assignment'),
+ ('bucket.UnmarshalBinary','lencheck:len(data) != bucketBytes'):T('guard of the array-pointer conversion'),
+ ('Wrapper.handleAuthorizeResponseSubmission','nilcheck:request.Body.State == nil'):T('guard of *request.Body.State'),
+ ('Wrapper.handleAuthorizeResponseSubmission','nilcheck:request.Body.VpToken == nil'):T('guard of *request.Body.VpToken'),
+ ('Wrapper.handleAuthorizeResponseSubmission','deref:*request.Body.VpToken'):T('under the nil check above'),
+ ('Wrapper.handleAuthorizeResponseSubmission','lencheck:len(pexEnvelope.Presentations) == 0'):T('GUARD of nonces[0] in validatePresentationNonce (Cfg.envelopeGuard): pe.ParseEnvelope("[]") succeeds with no presentations'),
+ ('Wrapper.handleAuthorizeResponseSubmission','deref:*request.Body.State'):T('under the nil check above'),
+ ('Wrapper.handleAuthorizeResponseSubmission','deref:*session.OwnSubject'):T('every OAuthSession the node stores under a client state has OwnSubject set (not input)'),
+ ('Wrapper.handleAuthorizeResponseSubmission','nilcheck:request.Body.PresentationSubmission == nil'):T('guard of *request.Body.PresentationSubmission'),
+ ('Wrapper.handleAuthorizeResponseSubmission','deref:*request.Body.PresentationSubmission'):T('under the nil check above'),
+ ('Wrapper.handleAuthorizeResponseSubmission','range:pexEnvelope.Presentations'):T('bounded loop'),
+ ('Wrapper.handleAuthorizeResponseSubmission','deref:*subjectDID'):T('validatePresentationSigner returns a non-nil DID when it returns no error'),
+ ('Wrapper.handleAuthorizeResponseSubmission','deref:*submission'):T('after err == nil of ParsePresentationSubmission'),
+ ('Wrapper.handleAuthorizeResponseSubmission','deref:*pexEnvelope'):T('after err == nil of ParseEnvelope'),
+ ('Wrapper.handleAuthorizeResponseSubmission','discard:session.OpenID4VPVerifier.next()'):T('second result unused'),
+ ('Wrapper.handleAuthorizeResponseSubmission','nilcheck:nextWalletOwnerType != nil'):T('flow control'),
+ ('Wrapper.handleAuthorizeResponseSubmission','deref:*callbackURI'):T('session.redirectURI() of a stored session'),
+ ('Wrapper.validatePresentationNonce','range:presentations'):T('bounded loop'),
+ ('Wrapper.validatePresentationNonce','lencheck:len(nonces) > 1'):T('error: differing nonces'),
+ ('Wrapper.validatePresentationNonce','lencheck:len(errs) > 0'):T('error return'),
+ ('Wrapper.validatePresentationNonce','range:nonces'):T('bounded loop'),
+ ('Wrapper.validatePresentationNonce','index:nonces[0]'):S('validatePresentationNonce:nonces[0]'),
+ ('extractChallenge','discard:presentation.JWT().Get("nonce")'):T('missing claim gives nil, then the checked assertion gives ""'),
+ ('extractChallenge','assertok:nonceRaw.(string)'):T('checked assertion'),
+ ('extractChallenge','nilcheck:proof.Challenge != nil'):T('guard of *proof.Challenge'),
+ ('extractChallenge','deref:*proof.Challenge'):T('under the nil check'),
+ ('Wrapper.validatePresentationAudience','nilcheck:proof.Domain != nil'):T('guard of *proof.Domain'),
+ ('Wrapper.validatePresentationAudience','deref:*proof.Domain'):T('under the nil check'),
+ ('Wrapper.validatePresentationAudience','range:audience'):T('bounded loop'),
+
 }
 q = lambda s: json.dumps(s, ensure_ascii=False)
 out, missing = [], []
